@@ -45,6 +45,23 @@ var anchoredFiles = []string{
 	"numerical/k_means.go", "toolbox3d/height_map.go",
 }
 
+// Packages whose query methods are checked for receiver writes.
+var queryPackages = []string{"model2d", "model3d", "render3d", "toolbox3d"}
+
+// Query methods that must still be found (so that the emptiness of queryReceiverWrites is not
+// vacuous after a refactor that hides them from the extractor).
+var querySites = map[string]bool{
+	"model3d.JoinedCollider.RayCollisions": true, "model3d.JoinedCollider.FirstRayCollision": true,
+	"model3d.JoinedCollider.SphereCollision": true,
+	"model3d.profileCollider.RayCollisions":  true, "model3d.profileCollider.FirstRayCollision": true,
+	"model3d.profileCollider.SphereCollision": true,
+	"model3d.SolidCollider.RayCollisions":     true, "model3d.colliderSDF.SDF": true, "model3d.meshSDF.SDF": true,
+	"model3d.ColliderSolid.Contains": true, "model3d.transformedCollider.RayCollisions": true,
+	"model2d.JoinedCollider.CircleCollision": true, "model2d.ColliderSolid.Contains": true,
+	"render3d.colorFuncObject.Cast": true, "render3d.ColliderObject.Cast": true, "render3d.JoinedObject.Cast": true,
+	"render3d.FilteredObject.Cast": true, "render3d.PhongMaterial.BSDF": true,
+}
+
 type eff struct{ kind, target string }
 
 type workerFact struct {
@@ -108,6 +125,29 @@ type pkgInfo struct {
 	pure map[string]bool
 	// accessor methods of the form `return &recv.Field[int(param)]`
 	accessor map[string]bool
+	// query methods (queryMethodNames) with the receiver writes they perform: "Type.Method: lhs"
+	// (direct writes) or "Type.Method: via Other" (through a mutating method of the same type)
+	queryMut []string
+	// every query method seen, "Type.Method"
+	queryAll []string
+	// function / method name -> package-level variables it writes with plain assignments,
+	// directly or through functions it calls (calls resolved by name: an over-approximation)
+	globalWriters map[string][]string
+}
+
+// Names of the read-only query methods of the library's interfaces (Collider and its
+// refinements, Solid, the SDF family, render3d.Object, Material, AreaLight, FocusPoint, and the
+// read-only mesh queries): the methods that the documentation allows to be called from many
+// goroutines at once on one value.
+var queryMethodNames = map[string]bool{
+	"Min": true, "Max": true, "Contains": true,
+	"SDF": true, "PointSDF": true, "NormalSDF": true, "FaceSDF": true, "BarycentricSDF": true,
+	"RayCollisions": true, "FirstRayCollision": true, "SphereCollision": true, "CircleCollision": true,
+	"TriangleCollisions": true, "SegmentCollision": true, "RectCollision": true,
+	"Cast": true, "BSDF": true, "SampleSource": true, "SourceDensity": true, "Emission": true, "Ambient": true,
+	"SampleLight": true, "TotalEmission": true, "SampleFocus": true, "FocusDensity": true,
+	"Find": true, "Neighbors": true, "VertexSlice": true, "IterateVertices": true, "Iterate": true,
+	"IterateSorted": true, "TriangleSlice": true, "SegmentSlice": true, "Dist": true,
 }
 
 var syncMethodNames = map[string]bool{"Lock": true, "Unlock": true, "RLock": true, "RUnlock": true,
@@ -123,9 +163,13 @@ func analysePackage(dir string) (*pkgInfo, error) {
 		typ, name string
 		direct    bool
 		deps      []string // methods of the same receiver type
+		writes    []string // receiver locations written directly
 	}
 	var meths []meth
-	info := &pkgInfo{mutating: map[string]bool{}, pure: map[string]bool{}, accessor: map[string]bool{}}
+	info := &pkgInfo{mutating: map[string]bool{}, pure: map[string]bool{}, accessor: map[string]bool{},
+		globalWriters: map[string][]string{}}
+	var parsed []*ast.File
+	defer func() { info.globalWriters = globalWriters(parsed) }()
 	for _, e := range entries {
 		n := e.Name()
 		if !strings.HasSuffix(n, ".go") || strings.HasSuffix(n, "_test.go") || strings.HasPrefix(n, "verif_export") {
@@ -135,6 +179,7 @@ func analysePackage(dir string) (*pkgInfo, error) {
 		if err != nil {
 			return nil, err
 		}
+		parsed = append(parsed, f)
 		for _, d := range f.Decls {
 			fd, ok := d.(*ast.FuncDecl)
 			if !ok || fd.Recv == nil || fd.Body == nil || len(fd.Recv.List) == 0 || len(fd.Recv.List[0].Names) == 0 {
@@ -167,11 +212,39 @@ func analysePackage(dir string) (*pkgInfo, error) {
 					}
 				}
 			}
+			// locals that certainly alias memory of the receiver: `x := recv.f[a:b]`
+			// (a slice expression shares the backing array)
+			alias := map[string]bool{}
+			ast.Inspect(fd.Body, func(n ast.Node) bool {
+				as, ok := n.(*ast.AssignStmt)
+				if !ok || len(as.Lhs) != len(as.Rhs) {
+					return true
+				}
+				for i, r := range as.Rhs {
+					se, ok := r.(*ast.SliceExpr)
+					if !ok {
+						continue
+					}
+					if root := rootIdent(se.X); root != nil && (root.Name == recv || alias[root.Name]) {
+						if id, ok := as.Lhs[i].(*ast.Ident); ok && id.Name != "_" && id.Name != recv {
+							alias[id.Name] = true
+						}
+					}
+				}
+				return true
+			})
 			isRecvWrite := func(lhs ast.Expr) bool {
 				if id, ok := lhs.(*ast.Ident); ok && id.Name == recv {
 					return false // rebinding the receiver variable itself
 				}
 				r := rootIdent(lhs)
+				if r != nil && alias[r.Name] {
+					// element write through an alias of the receiver's backing array
+					if _, ok := lhs.(*ast.IndexExpr); ok {
+						return true
+					}
+					return false
+				}
 				if r == nil || r.Name != recv {
 					return false
 				}
@@ -196,17 +269,27 @@ func analysePackage(dir string) (*pkgInfo, error) {
 						for _, l := range x.Lhs {
 							if isRecvWrite(l) {
 								m.direct = true
+								m.writes = append(m.writes, exprStr(fset, l))
 							}
 						}
 					}
 				case *ast.IncDecStmt:
 					if isRecvWrite(x.X) {
 						m.direct = true
+						m.writes = append(m.writes, exprStr(fset, x.X))
 					}
 				case *ast.CallExpr:
 					if id, ok := x.Fun.(*ast.Ident); ok && (id.Name == "delete" || id.Name == "copy") && len(x.Args) > 0 {
-						if r := rootIdent(x.Args[0]); r != nil && r.Name == recv {
+						if r := rootIdent(x.Args[0]); r != nil && (r.Name == recv || alias[r.Name]) {
 							m.direct = true
+							m.writes = append(m.writes, exprStr(fset, x))
+						}
+					}
+					// append into an alias of the receiver's backing array writes that array
+					if id, ok := x.Fun.(*ast.Ident); ok && id.Name == "append" && len(x.Args) > 0 {
+						if r, ok := x.Args[0].(*ast.Ident); ok && alias[r.Name] {
+							m.direct = true
+							m.writes = append(m.writes, exprStr(fset, x))
 						}
 					}
 				case *ast.SelectorExpr:
@@ -248,8 +331,125 @@ func analysePackage(dir string) (*pkgInfo, error) {
 		} else {
 			info.pure[m.name] = true
 		}
+		if !queryMethodNames[m.name] {
+			continue
+		}
+		info.queryAll = append(info.queryAll, m.typ+"."+m.name)
+		if !mut[i] {
+			continue
+		}
+		for _, w := range m.writes {
+			info.queryMut = append(info.queryMut, m.typ+"."+m.name+": "+w)
+		}
+		if !m.direct {
+			for _, d := range m.deps {
+				for j, m2 := range meths {
+					if m2.name == d && m2.typ == m.typ && mut[j] {
+						info.queryMut = append(info.queryMut, m.typ+"."+m.name+": via "+d)
+					}
+				}
+			}
+		}
 	}
+	sort.Strings(info.queryAll)
+	sort.Strings(info.queryMut)
 	return info, nil
+}
+
+// globalWriters computes, for every function and method name of a package, the package-level
+// variables written by plain assignment in its body or in the bodies of the functions it calls
+// (callees are resolved by bare name, so the result over-approximates).
+func globalWriters(files []*ast.File) map[string][]string {
+	pkgVars := map[string]bool{}
+	for _, f := range files {
+		for _, d := range f.Decls {
+			if gd, ok := d.(*ast.GenDecl); ok && gd.Tok == token.VAR {
+				for _, sp := range gd.Specs {
+					if vs, ok := sp.(*ast.ValueSpec); ok {
+						for _, nm := range vs.Names {
+							if nm.Name != "_" {
+								pkgVars[nm.Name] = true
+							}
+						}
+					}
+				}
+			}
+		}
+	}
+	direct := map[string]map[string]bool{}
+	calls := map[string]map[string]bool{}
+	for _, f := range files {
+		for _, d := range f.Decls {
+			fd, ok := d.(*ast.FuncDecl)
+			if !ok || fd.Body == nil {
+				continue
+			}
+			name := fd.Name.Name
+			locals := map[string]bool{}
+			collectLocals(fd.Body, locals)
+			for _, fl := range []*ast.FieldList{fd.Recv, fd.Type.Params, fd.Type.Results} {
+				if fl != nil {
+					for _, p := range fl.List {
+						for _, nm := range p.Names {
+							locals[nm.Name] = true
+						}
+					}
+				}
+			}
+			if direct[name] == nil {
+				direct[name], calls[name] = map[string]bool{}, map[string]bool{}
+			}
+			wr := func(e ast.Expr) {
+				if r := rootIdent(e); r != nil && pkgVars[r.Name] && !locals[r.Name] {
+					direct[name][r.Name] = true
+				}
+			}
+			ast.Inspect(fd.Body, func(n ast.Node) bool {
+				switch x := n.(type) {
+				case *ast.AssignStmt:
+					if x.Tok != token.DEFINE {
+						for _, l := range x.Lhs {
+							wr(l)
+						}
+					}
+				case *ast.IncDecStmt:
+					wr(x.X)
+				case *ast.CallExpr:
+					switch fn := x.Fun.(type) {
+					case *ast.Ident:
+						if (fn.Name == "delete" || fn.Name == "copy") && len(x.Args) > 0 {
+							wr(x.Args[0])
+						}
+						calls[name][fn.Name] = true
+					case *ast.SelectorExpr:
+						calls[name][fn.Sel.Name] = true
+					}
+				}
+				return true
+			})
+		}
+	}
+	for changed := true; changed; {
+		changed = false
+		for name, cs := range calls {
+			for c := range cs {
+				for v := range direct[c] {
+					if !direct[name][v] {
+						direct[name][v] = true
+						changed = true
+					}
+				}
+			}
+		}
+	}
+	out := map[string][]string{}
+	for name, vs := range direct {
+		for v := range vs {
+			out[name] = append(out[name], v)
+		}
+		sort.Strings(out[name])
+	}
+	return out
 }
 
 // Mutators of types from outside the repository that the anchored files call on captured state.
@@ -413,6 +613,27 @@ func (w *wctx) expr(e ast.Node, locked bool, stmtCall *ast.CallExpr) {
 				}
 			}
 		case *ast.CallExpr:
+			// a callee (resolved by name, transitively) that assigns a package-level variable
+			callee := ""
+			switch fn := x.Fun.(type) {
+			case *ast.Ident:
+				if !w.locals[fn.Name] {
+					callee = fn.Name
+				}
+			case *ast.SelectorExpr:
+				callee = fn.Sel.Name
+			}
+			if vs := w.pkg.globalWriters[callee]; callee != "" && len(vs) > 0 {
+				kind := "plainWrite"
+				if locked {
+					kind = "locked"
+				}
+				e := eff{kind, "package variable " + strings.Join(vs, ",") + " (written in " + callee + " or its callees)"}
+				if !w.seen[e] {
+					w.seen[e] = true
+					w.effects = append(w.effects, e)
+				}
+			}
 			if id, ok := x.Fun.(*ast.Ident); ok {
 				switch id.Name {
 				case "close":
@@ -1326,6 +1547,34 @@ func genConcFacts(repoRoot string) (string, error) {
 	fmt.Fprintf(&b, "def updateAt : List String := %s\n\n", leanStrList(updateAtShape(files["toolbox3d/height_map.go"])))
 	fmt.Fprintf(&b, "/-- What `model2d.CacheScalarFunc`'s closure does with its captured cache. -/\n")
 	fmt.Fprintf(&b, "def cacheScalarFunc : List String := %s\n\n", leanStrList(cacheScalarFuncShape(files["model2d/curves.go"])))
+
+	var qmut, qseen []string
+	nq := 0
+	for _, pk := range queryPackages {
+		dir := filepath.Join(repoRoot, pk)
+		if pkgs[dir] == nil {
+			p, err := analysePackage(dir)
+			if err != nil {
+				return "", err
+			}
+			pkgs[dir] = p
+		}
+		for _, q := range pkgs[dir].queryMut {
+			qmut = append(qmut, pk+"."+q)
+		}
+		for _, q := range pkgs[dir].queryAll {
+			nq++
+			if querySites[pk+"."+q] {
+				qseen = append(qseen, pk+"."+q)
+			}
+		}
+	}
+	sort.Strings(qseen)
+	fmt.Fprintf(&b, "/-- Receiver writes inside read-only query methods (Collider / Solid / SDF / Object / Material /\nmesh queries) of %s: assignments to the receiver's memory, directly, through a\nslice alias of it, or through another method of the same type.  Must be empty: queries stage\ntheir results in call-local state only (`owned_state_noninterference`). -/\n", strings.Join(queryPackages, ", "))
+	fmt.Fprintf(&b, "def queryReceiverWrites : List String := %s\n", leanStrList(qmut))
+	fmt.Fprintf(&b, "/-- Number of query methods analysed. -/\ndef queryMethodCount : Nat := %d\n", nq)
+	fmt.Fprintf(&b, "/-- The sites the staged-query model stands for that the extractor found. -/\n")
+	fmt.Fprintf(&b, "def querySitesSeen : List String := %s\n\n", leanStrList(qseen))
 
 	b.WriteString("/-- Every worker closure of the anchored files with its effects on captured state. -/\n")
 	b.WriteString("def workers : List Worker := [\n")
